@@ -3,6 +3,7 @@ executor crashes as failures, shrinking, replay files, evidence, known findings.
 import hashlib, json, multiprocessing as mp, os, sys, time, traceback, glob
 
 VERIF = os.path.dirname(os.path.dirname(os.path.abspath(__file__)))
+OUT = os.environ.get("VERIF_OUT", VERIF)     # evidence/ and new replay files (seeded-change runs write elsewhere)
 sys.path.insert(0, os.path.join(VERIF, "lib"))
 sys.path.insert(0, VERIF)
 
@@ -332,8 +333,8 @@ def run_check(pid, tier, seed, level="exploration", only=None):
             if r["fail"].get("case_override") is not None:
                 rec["case_override"] = r["fail"]["case_override"]
             h = hashlib.sha256(json.dumps([rec["test"], rec["case"], rec.get("case_override")], sort_keys=True).encode()).hexdigest()[:10]
-            os.makedirs(os.path.join(VERIF, "replay"), exist_ok=True)
-            path = os.path.join(VERIF, "replay", "%s-%s-%s.json" % (pid, rec["test"], h))
+            os.makedirs(os.path.join(OUT, "replay"), exist_ok=True)
+            path = os.path.join(OUT, "replay", "%s-%s-%s.json" % (pid, rec["test"], h))
             errs = replay_case(pid, rec)
             if len(errs) == 3:
                 if not any(v[0] == path for v in violations):
@@ -364,8 +365,8 @@ def run_check(pid, tier, seed, level="exploration", only=None):
           "assumptions": getattr(mod, "ASSUMPTIONS", []), "wall_s": round(wall, 2), "violations": len(violations)}
     if harness_errors:
         ev["coverage"]["harness_errors"] = [h[1][-600:] for h in harness_errors][:5]
-    os.makedirs(os.path.join(VERIF, "evidence"), exist_ok=True)
-    json.dump(ev, open(os.path.join(VERIF, "evidence", pid + ".json"), "w"), indent=1)
+    os.makedirs(os.path.join(OUT, "evidence"), exist_ok=True)
+    json.dump(ev, open(os.path.join(OUT, "evidence", pid + ".json"), "w"), indent=1)
     for l in known_lines:
         print(l)
     for t, h in harness_errors:
